@@ -215,7 +215,28 @@ pub fn run_world_at(run: &Run, net: NetID, start: Option<u64>, ages: &[u64], dif
         // the same two mints as two calls into the same block, fastest first and fastest last: the speed recorded at sealing is
         // the maximum over the whole block, whichever call demonstrated it (the engine's oracle compares after every call)
         if let Some(fast) = acc.iter().max_by_key(|x| x.1) {
-            if let Some(slow) = acc.iter().filter(|x| x.0.inputs[0] != fast.0.inputs[0]).min_by_key(|x| x.1) {
+            // the slower one should still beat the recorded speed if such a mint was accepted (a record that a later, smaller
+            // record overwrites); otherwise the slowest of all
+            let open_speed = open.view().header().dosc_speed;
+            let others = || acc.iter().filter(|x| x.0.inputs[0] != fast.0.inputs[0]);
+            let slow = others().filter(|x| x.1 > open_speed && x.1 < fast.1).min_by_key(|x| x.1).or_else(|| others().min_by_key(|x| x.1));
+            if let Some(slow) = slow {
+                // ... and as one batch, in both orders, on a pool of one worker (the whole batch is one piece of the parallel fold)
+                // and on the process's pool (the batch may be cut between the two)
+                let one = rayon::ThreadPoolBuilder::new().num_threads(1).build().unwrap();
+                for (name, first, second) in [("fastest first", fast, slow), ("fastest last", slow, fast)] {
+                    for single in [true, false] {
+                        let a = Action::Batch { label: format!("the fastest and the slowest accepted mint in one batch, {} (age {}, {})", name, age, if single { "1 worker" } else { "process pool" }), txs: vec![first.0.clone(), second.0.clone()], expect_ok: true };
+                        let out = if single { one.install(|| eng.step(&open, &a)) } else { eng.step(&open, &a) };
+                        if let StepOut::Next(n2) = out {
+                            run.outcome("mint:fastest-and-slowest-in-one-batch-accepted");
+                            let (h2, want) = (n2.view().header().dosc_speed, fast.1.max(open.view().header().dosc_speed));
+                            if h2 != want {
+                                run.violation("C18", format!("dosc-speed-not-the-maximum/one-batch/{}", if single { "1-worker" } else { "process-pool" }), format!("age {} ({}): the block's recorded speed is {} although {} was demonstrated in it", age, name, h2, want), open.replay_json(Some(&a)));
+                            }
+                        }
+                    }
+                }
                 for (name, first, second) in [("fastest first", fast, slow), ("fastest last", slow, fast)] {
                     let a1 = Action::Batch { label: format!("two mints in two calls, {} (age {}): first call", name, age), txs: vec![first.0.clone()], expect_ok: true };
                     if let StepOut::Next(n1) = eng.step(&open, &a1) {
